@@ -233,6 +233,9 @@ pub fn run(opts: &Opts) -> Report {
             record(&mut rep, opts, "model", 1_000_000_000 + c, "slot random", &ops, run_slot(rng.chance(1, 2), &ops));
         }
     }
+    if want("flood") {
+        crate::props::storm::sink_flood(&mut rep, opts);
+    }
     if want("order") {
         order_part(&mut rep, opts);
     }
